@@ -395,7 +395,10 @@ def symbolic_params(k, template, prefix="p"):
             out[key] = symbolic_params(k, v, name)
         elif hasattr(v, "shape") and len(v.shape) > 0:
             shp = [int(d) for d in v.shape] if k.mode == "native" else list(v.shape)
-            out[key] = k.array(name, shp, "float", values=[0.0, 0.25, 0.5, 1.0])
+            arr = k.array(name, shp, "float", values=[0.25, 0.5, 1.0, 1.0])
+            if k.mode == "native":
+                arr = arr / arr.sum(axis=-1, keepdims=True)  # transition rows are probability vectors
+            out[key] = arr
         else:
             out[key] = k.real(name)
     return out
